@@ -172,7 +172,7 @@ def parse_set(text):
     return sorted(int(x) for x in re.findall(r"-?\d+", text))
 
 
-def run_impl(cases):
+def _run_impl_raw(cases):
     import itertools
     import shutil
     import tempfile
@@ -318,3 +318,16 @@ def shrink(case):
             yield dict(case, type=dict(inner, fs=inner["fs"][:-1]), plan=case["plan"][:-1])
         if case["base"]["o"] != "leaf" or len(case["base"]["v"]) > 1:
             yield dict(case, base={"o": "leaf", "v": [case["base"].get("v", [0])[0]], "how": "int", "raw": False})
+
+
+def run_impl(cases):
+    """every case under a wall-clock ceiling (>= 50x the slowest case on the unchanged tree): a hang becomes a reported failure"""
+    import rt
+
+    out = []
+    for case in cases:
+        try:
+            out.append(rt.with_alarm(30, lambda c=case: _run_impl_raw([c])[0]))
+        except rt.CaseTimeout:
+            out.append({"harness_fail": True, "pred_fail": "the implementation did not finish this case within 30 s (cases are generated under a cost guard of well below a second)"})
+    return out
